@@ -567,8 +567,12 @@ const verifOn = true
 // whose element type contains pointers.
 var VerifRawPtrCopies atomic.Int64
 
+// VerifRawPtrZeros counts raw (untyped) zeroing of slots in component columns
+// whose element type contains pointers.
+var VerifRawPtrZeros atomic.Int64
+
 // verifRawCopy is called from archetype.copy.
-func verifRawCopy(a *archetype, dst unsafe.Pointer, size uint32) {
+func verifRawCopy(a *archetype, src, dst unsafe.Pointer, size uint32) {
 	if a == nil || a.archetypeData == nil || a.node == nil {
 		return
 	}
@@ -582,7 +586,11 @@ func verifRawCopy(a *archetype, dst unsafe.Pointer, size uint32) {
 		end := start + uintptr(buf.Len())*tp.Size()
 		if d >= start && d < end {
 			if verifHasPointers(tp) {
-				VerifRawPtrCopies.Add(1)
+				if src == a.node.zeroPointer {
+					VerifRawPtrZeros.Add(1)
+				} else {
+					VerifRawPtrCopies.Add(1)
+				}
 			}
 			return
 		}
